@@ -238,8 +238,9 @@ pub fn starts(ts: TimeScale) -> Vec<i128> {
 }
 
 pub fn space(q: bool) -> Vec<Series> {
-    let spans: [i128; 11] = [0, 1, 2, 5, 6, 7, 10, 59, 60, 61, 63];
-    let steps: [i128; 5] = [1, 2, 3, 5, 7];
+    // quick: 11 spans x 5 steps; thorough: every span 0..=64 and spans round 100, 128, 256 and 1000 units x 10 steps
+    let spans: Vec<i128> = if q { vec![0, 1, 2, 5, 6, 7, 10, 59, 60, 61, 63] } else { (0..=64).chain([99, 100, 101, 127, 128, 129, 255, 256, 257, 999, 1000, 1001]).collect() };
+    let steps: Vec<i128> = if q { vec![1, 2, 3, 5, 7] } else { vec![1, 2, 3, 4, 5, 7, 8, 16, 60, 64] };
     let units: Vec<i128> = if q { vec![1, NS, 86_400 * NS] } else { vec![1, 1000, NS, 60 * NS, 86_400 * NS, 7 * 86_400 * NS] };
     let mut v = vec![];
     for ts in SCALES {
@@ -253,8 +254,8 @@ pub fn space(q: bool) -> Vec<Series> {
         for st in starts(ts) {
             for end_ts in &others {
                 for u in &units {
-                    for sp in spans {
-                        for stp in steps {
+                    for sp in spans.iter().copied() {
+                        for stp in steps.iter().copied() {
                             for incl in [false, true] {
                                 v.push(Series { ts, start: st, end_ts: *end_ts, span: sp * u, step: stp * u, incl });
                                 if sp > 0 && *u > 1 {
@@ -354,7 +355,7 @@ pub fn long_series() -> Vec<Series> {
 pub fn run(rep: &mut Report) {
     let q = rep.quick();
     let leap = LeapTable::load().expect("leap").0;
-    rep.rule = "every series of the product start (per scale: zero, before zero, century boundaries of the count, before/at/after three leap seconds) x span {0,1,2,5,6,7,10,59,60,61,63} units (and +-1 ns) x step {1,2,3,5,7} units x unit {ns, s, day (+ us, min, week thorough)} x {inclusive, exclusive} x end given in the start's scale or another one; each real iterator is stepped with next() to exhaustion and once more, then driven again by collect(), by a for loop, by by_ref().take(j) + the rest and (series of up to 4096 items) by nth / skip / step_by / count / last / clone on a fresh and on a partially consumed iterator, and every yielded item is compared with start + k*step computed from the start. Medium series (five non-round steps x every item count 1..512 (thorough 2048) x spans -1..+3 ns around a whole number of steps). Huge series (2^53 .. 2^80 items, nanosecond to microsecond steps over centuries): the first six items and take(3).collect(). Long-span series (steps of 400 days .. one century, 2..120 steps, spans beyond the i64 nanosecond range) in both tiers; long series (millions of items) in the thorough tier. Non-trivial = span a whole multiple of the step, end in another scale, or start before the reference.".into();
+    rep.rule = "every series of the product start (per scale: zero, before zero, century boundaries of the count, before/at/after three leap seconds) x span {0,1,2,5,6,7,10,59,60,61,63} units (thorough: every span 0..=64 and spans round 100, 128, 256, 1000 units; and +-1 ns) x step {1,2,3,5,7} units (thorough: ten steps up to 64 units) x unit {ns, s, day (+ us, min, week thorough)} x {inclusive, exclusive} x end given in the start's scale or another one; each real iterator is stepped with next() to exhaustion and once more, then driven again by collect(), by a for loop, by by_ref().take(j) + the rest and (series of up to 4096 items) by nth / skip / step_by / count / last / clone on a fresh and on a partially consumed iterator, and every yielded item is compared with start + k*step computed from the start. Medium series (five non-round steps x every item count 1..512 (thorough 2048) x spans -1..+3 ns around a whole number of steps). Huge series (2^53 .. 2^80 items, nanosecond to microsecond steps over centuries): the first six items and take(3).collect(). Long-span series (steps of 400 days .. one century, 2..120 steps, spans beyond the i64 nanosecond range) in both tiers; long series (millions of items) in the thorough tier. Non-trivial = span a whole multiple of the step, end in another scale, or start before the reference.".into();
     rep.assumptions = vec!["end - start is measured in the end's time scale (left operand, C04); series whose start has no count in the end's scale (inside an inserted UTC interval) are don't-cares".into()];
     let sp = space(q);
     rep.bound("series", sp.len() as u64);
